@@ -53,6 +53,28 @@ impl Database {
         }
     }
 
+    /// Replay hook for the verification framework in /verif: an on-disk database without the
+    /// background compactor and vacuum tasks (compaction is run on demand, see
+    /// `verif_compact_once`). Such a database is closed by dropping it.
+    #[cfg(feature = "verif_hooks")]
+    pub async fn verif_new_on_disk_manual(options: SecondaryStorageOptions) -> Self {
+        let storage = Arc::new(SecondaryStorage::open(options).await.unwrap());
+        Database {
+            catalog: storage.catalog().clone(),
+            storage: StorageImpl::SecondaryStorage(storage),
+            config: Default::default(),
+        }
+    }
+
+    /// Replay hook for the verification framework in /verif: run one compaction pass now.
+    #[cfg(feature = "verif_hooks")]
+    pub async fn verif_compact_once(&self) -> Result<(), Error> {
+        if let StorageImpl::SecondaryStorage(storage) = &self.storage {
+            storage.verif_compact_once().await?;
+        }
+        Ok(())
+    }
+
     pub async fn shutdown(&self) -> Result<(), Error> {
         if let StorageImpl::SecondaryStorage(storage) = &self.storage {
             storage.shutdown().await?;
